@@ -3,6 +3,6 @@ CONSTANT Depth = 3
 CONSTANT Shift = "0"
 CONSTANT Win0 = 2
 CONSTANT Mms = 150
-CONSTANT Side = "client"
+CONSTANT Side = "listener"
 INVARIANT Emit
 CHECK_DEADLOCK FALSE
